@@ -237,6 +237,184 @@ async fn ns_flow(log: &mut Log, st: &mut Stats, rng: &mut Rng) {
     probe.shutdown();
 }
 
+/// Two real `NodeServerState`s (node A, node B) joined by several connections; sessions
+/// authenticate, are probed (`check_candidate`) and notice the other end's close in a random
+/// order — the steps of `Model/Handshake.lean`. After the random prefix the run is completed
+/// (everything still open authenticates, every close is noticed) and `hend` reports what each
+/// node is left with.
+/// ops: `hs <nameA> <nameB> <aInit:nonce:idA:idB,…>`, `hauthA|hauthB|hpreA|hpreB|hseeA|hseeB <id>`, `hend`
+/// observation: `OA[open ids] OB[open ids] VA[listed ids] VB[listed ids]`
+struct HsLink {
+    ida: u64,
+    idb: u64,
+    open_a: bool,
+    open_b: bool,
+    auth_a: bool,
+    auth_b: bool,
+}
+
+struct HsWorld {
+    ls: Vec<HsLink>,
+    pa: NodeStateProbe,
+    pb: NodeStateProbe,
+}
+
+const HS_KINDS: [&str; 6] = ["hauthA", "hauthB", "hpreA", "hpreB", "hseeA", "hseeB"];
+
+impl HsWorld {
+    /// returns the world and the `hs` op line describing it (with the real pids)
+    async fn new(a: &str, b: &str, conns: &[(bool, u64)]) -> (Self, String) {
+        let mut pa = NodeStateProbe::new(a).await;
+        let mut pb = NodeStateProbe::new(b).await;
+        let mut ls = Vec::new();
+        let mut desc = Vec::new();
+        for (a_init, nonce) in conns {
+            let ida = pa.open(!*a_init).await;
+            let idb = pb.open(*a_init).await;
+            pa.register(ida, b, *nonce);
+            pb.register(idb, a, *nonce);
+            desc.push(format!("{a_init}:{nonce}:{ida}:{idb}"));
+            ls.push(HsLink { ida, idb, open_a: true, open_b: true, auth_a: false, auth_b: false });
+        }
+        (Self { ls, pa, pb }, format!("hs {a} {b} {}", desc.join(",")))
+    }
+
+    fn obs(&self) -> String {
+        let mut oa: Vec<u64> = self.ls.iter().filter(|l| l.open_a).map(|l| l.ida).collect();
+        let mut ob: Vec<u64> = self.ls.iter().filter(|l| l.open_b).map(|l| l.idb).collect();
+        oa.sort_unstable();
+        ob.sort_unstable();
+        format!(
+            "OA[{}] OB[{}] VA[{}] VB[{}]",
+            show_u64s(&oa),
+            show_u64s(&ob),
+            show_u64s(&self.pa.visible()),
+            show_u64s(&self.pb.visible())
+        )
+    }
+
+    /// kind: 0 authA 1 authB 2 preA 3 preB 4 seeA 5 seeB; returns the op line
+    fn exec(&mut self, kind: usize, i: usize, st: &mut Stats) -> String {
+        let on_a = kind % 2 == 0;
+        let l = &self.ls[i];
+        let id = if on_a { l.ida } else { l.idb };
+        let (open, auth, other_open) =
+            if on_a { (l.open_a, l.auth_a, l.open_b) } else { (l.open_b, l.auth_b, l.open_a) };
+        let p = if on_a { &mut self.pa } else { &mut self.pb };
+        let mut closed: Vec<u64> = Vec::new();
+        match kind {
+            0 | 1 => {
+                if open && !auth {
+                    if on_a {
+                        self.ls[i].auth_a = true
+                    } else {
+                        self.ls[i].auth_b = true
+                    }
+                    if let Some((_, losers)) = p.commit(id) {
+                        if !losers.is_empty() {
+                            st.bump("hs_commit_with_losers");
+                        }
+                        // the handler stops the losers; their exit removes them from the state
+                        closed = losers;
+                    }
+                }
+            }
+            2 | 3 => {
+                if open && !auth && p.check_candidate(id) == "otherContinues" {
+                    st.bump("hs_pre_closed");
+                    closed.push(id);
+                }
+            }
+            _ => {
+                if open && !other_open {
+                    closed.push(id);
+                }
+            }
+        }
+        for x in closed {
+            p.close(x);
+            for l in self.ls.iter_mut() {
+                if on_a && l.ida == x {
+                    l.open_a = false
+                }
+                if !on_a && l.idb == x {
+                    l.open_b = false
+                }
+            }
+        }
+        format!("{} {id}", HS_KINDS[kind])
+    }
+
+    /// steps that are still due: pending authentications and unnoticed closes
+    fn due(&self) -> Vec<(usize, usize)> {
+        let mut todo = Vec::new();
+        for (i, l) in self.ls.iter().enumerate() {
+            if l.open_a && !l.auth_a {
+                todo.push((0, i))
+            }
+            if l.open_b && !l.auth_b {
+                todo.push((1, i))
+            }
+            if l.open_a && !l.open_b {
+                todo.push((4, i))
+            }
+            if l.open_b && !l.open_a {
+                todo.push((5, i))
+            }
+        }
+        todo
+    }
+
+    fn shutdown(self) {
+        self.pa.shutdown();
+        self.pb.shutdown();
+    }
+}
+
+async fn hs_case(log: &mut Log, st: &mut Stats, rng: &mut Rng) {
+    let (a, mut b) = names(rng);
+    if a == b {
+        b.push('x');
+    }
+    let n = rng.range(1, 5) as usize;
+    let dir_mode = rng.below(4);
+    let conns: Vec<(bool, u64)> = (0..n)
+        .map(|_| {
+            let a_init = match dir_mode {
+                0 => true,
+                1 => false,
+                _ => rng.chance(1, 2),
+            };
+            (a_init, *rng.pick(&[0u64, 0, 3, 3, 5, 8]))
+        })
+        .collect();
+    let (mut w, line) = HsWorld::new(&a, &b, &conns).await;
+    st.bump("hs");
+    st.bump(&format!("hs_conns_{n}"));
+    log.rec(line, "ok");
+    let steps = rng.range(0, 5 * n as u64);
+    for _ in 0..steps {
+        let i = rng.below(n as u64) as usize;
+        let kind = *rng.pick(&[0usize, 0, 0, 1, 1, 1, 2, 3, 4, 4, 5, 5]);
+        let op = w.exec(kind, i, st);
+        st.bump("hs_step");
+        log.rec(op, w.obs());
+    }
+    // completion: everything still open authenticates, every close is noticed
+    loop {
+        let todo = w.due();
+        if todo.is_empty() {
+            break;
+        }
+        let (kind, i) = *rng.pick(&todo);
+        let op = w.exec(kind, i, st);
+        st.bump("hs_step");
+        log.rec(op, w.obs());
+    }
+    log.rec("hend", w.obs());
+    w.shutdown();
+}
+
 /// Paired experiment for the non-interference clause: the same duplicate-connection flow is
 /// run on two real `NodeServerState`s, one of which additionally holds an UNAUTHENTICATED
 /// session claiming the peer's name (any direction / nonce, inserted at a random moment).
@@ -339,6 +517,8 @@ fn exhaustive(log: &mut Log, st: &mut Stats) {
 async fn replay_ops(log: &mut Log, st: &mut Stats, path: &str) {
     let text = std::fs::read_to_string(path).unwrap_or_default();
     let mut probe: Option<NodeStateProbe> = None;
+    let mut hs: Option<HsWorld> = None;
+    let mut hs_old: Vec<(u64, u64)> = Vec::new();
     let mut map: std::collections::HashMap<u64, u64> = Default::default();
     let mut regs: std::collections::HashMap<u64, (String, u64)> = Default::default();
     let m = |map: &std::collections::HashMap<u64, u64>, p: &str| -> u64 {
@@ -371,6 +551,46 @@ async fn replay_ops(log: &mut Log, st: &mut Stats, path: &str) {
                     })
                     .collect();
                 do_world(log, st, a, b, &c);
+            }
+            ["hs", a, b, cs] => {
+                if let Some(w) = hs.take() {
+                    w.shutdown();
+                }
+                let parsed: Vec<(bool, u64, u64, u64)> = cs
+                    .split(',')
+                    .filter_map(|x| {
+                        let f: Vec<&str> = x.split(':').collect();
+                        Some((f.first()? == &"true", f.get(1)?.parse().ok()?, f.get(2)?.parse().ok()?, f.get(3)?.parse().ok()?))
+                    })
+                    .collect();
+                let conns: Vec<(bool, u64)> = parsed.iter().map(|c| (c.0, c.1)).collect();
+                let (w, line) = HsWorld::new(a, b, &conns).await;
+                hs_old = parsed.iter().map(|c| (c.2, c.3)).collect();
+                log.rec(line, "ok");
+                hs = Some(w);
+            }
+            [k, old] if HS_KINDS.contains(k) => {
+                if let Some(w) = hs.as_mut() {
+                    let kind = HS_KINDS.iter().position(|x| x == k).unwrap();
+                    let old: u64 = old.parse().unwrap_or(0);
+                    let idx = hs_old.iter().position(|(ia, ib)| if kind % 2 == 0 { *ia == old } else { *ib == old });
+                    if let Some(i) = idx {
+                        let op = w.exec(kind, i, st);
+                        log.rec(op, w.obs());
+                    }
+                }
+            }
+            ["hend"] => {
+                if let Some(w) = hs.as_mut() {
+                    // a shrunk prefix may have lost its completion: complete it deterministically
+                    loop {
+                        let todo = w.due();
+                        let Some((kind, i)) = todo.first().copied() else { break };
+                        let op = w.exec(kind, i, st);
+                        log.rec(op, w.obs());
+                    }
+                    log.rec("hend", w.obs());
+                }
             }
             ["ns", this] => {
                 if let Some(p) = probe.take() {
@@ -440,6 +660,9 @@ async fn replay_ops(log: &mut Log, st: &mut Stats, path: &str) {
     if let Some(p) = probe.take() {
         p.shutdown();
     }
+    if let Some(w) = hs.take() {
+        w.shutdown();
+    }
 }
 
 #[tokio::main(flavor = "current_thread")]
@@ -493,6 +716,9 @@ async fn main() {
         ns_case(&mut log, &mut st, &mut rng).await;
         ns_flow(&mut log, &mut st, &mut rng).await;
         ns_noninterference(&mut log, &mut st, &mut rng).await;
+    }
+    for _ in 0..cases {
+        hs_case(&mut log, &mut st, &mut rng).await;
     }
     st.add("lines", log.lines);
     st.write_json(&std::path::Path::new(&out).join("stats.json"));
